@@ -264,6 +264,7 @@ impl<'a> MediaPlaylistBuilder<'a> {
 
         for segment in segments {
             if segment.explicit_number {
+                vec.reserve_for(segment.number);
                 vec.insert(segment.number, segment);
             } else {
                 remaining.push(segment);
